@@ -101,7 +101,6 @@ def strptime (fmt : List Dir) (s : Str) : Option DT :=
   | _ => none
 
 def pad2 (n : Nat) : Str := [Char.ofNat (48 + n / 10), Char.ofNat (48 + n % 10)]
-def natStr (n : Nat) : Str := (toString n).toList
 
 def strftime (v : DT) (fmt : List Dir) (prec : Nat) : Str :=
   fmt.flatMap fun
